@@ -543,6 +543,9 @@ def k2_fuzzy_real():
     out['paths'] = len(q.log)
     out['cpu_s'] = round(q.total, 3)
     out['detail'] = q.log
+    if q.disagreements:
+        out['status'] = 'harness_error'
+        out['message'] = 'z3 and cvc5 disagree on: %s' % q.disagreements
     out['functions'] = sorted(S.entered)
     return out
 
@@ -599,6 +602,9 @@ def k2_fuzzy_fp():
     out['paths'] = len(q.log)
     out['cpu_s'] = round(q.total, 3)
     out['detail'] = q.log
+    if q.disagreements:
+        out['status'] = 'harness_error'
+        out['message'] = 'z3 and cvc5 disagree on: %s' % q.disagreements
     out['functions'] = sorted(F.entered)
     return out
 
